@@ -15,6 +15,7 @@
 package main
 
 import (
+	"context"
 	"crypto/ecdsa"
 	"crypto/elliptic"
 	crand "crypto/rand"
@@ -24,6 +25,8 @@ import (
 	"encoding/pem"
 	"flag"
 	"fmt"
+	"io"
+	"log/slog"
 	"math/big"
 	"math/bits"
 	"os"
@@ -38,16 +41,27 @@ import (
 	"sync"
 	"time"
 
+	cmapi "github.com/cert-manager/cert-manager/pkg/apis/certmanager/v1"
+	cmfake "github.com/cert-manager/cert-manager/pkg/client/clientset/versioned/fake"
+	cmlisters "github.com/cert-manager/cert-manager/pkg/client/listers/certmanager/v1"
+	"github.com/nginx/kubernetes-ingress/internal/certmanager"
+	"github.com/nginx/kubernetes-ingress/internal/externaldns"
 	"github.com/nginx/kubernetes-ingress/internal/k8s"
+	nl "github.com/nginx/kubernetes-ingress/internal/logger"
 	"github.com/nginx/kubernetes-ingress/internal/verifh/vh"
 	conf_v1 "github.com/nginx/kubernetes-ingress/pkg/apis/configuration/v1"
+	extdnsapi "github.com/nginx/kubernetes-ingress/pkg/apis/externaldns/v1"
+	k8sfake "github.com/nginx/kubernetes-ingress/pkg/client/clientset/versioned/fake"
+	extdnslisters "github.com/nginx/kubernetes-ingress/pkg/client/listers/externaldns/v1"
 	api_v1 "k8s.io/api/core/v1"
 	discovery_v1 "k8s.io/api/discovery/v1"
 	networking "k8s.io/api/networking/v1"
 	meta_v1 "k8s.io/apimachinery/pkg/apis/meta/v1"
+	k8sruntime "k8s.io/apimachinery/pkg/runtime"
 	"k8s.io/apimachinery/pkg/types"
 	"k8s.io/apimachinery/pkg/util/intstr"
 	k8syaml "k8s.io/apimachinery/pkg/util/yaml"
+	"k8s.io/client-go/tools/cache"
 )
 
 // ---------------------------------------------------------------- cases
@@ -130,9 +144,13 @@ func templates(plus bool) *k8s.VerifC17Templates {
 	return tmplOSS
 }
 
-func newCtl(f int) *k8s.VerifC17 {
+func newCtl(f int) *k8s.VerifC17 { return newCtlNS(f, "") }
+
+// newCtlNS: watch = "" watches every namespace; otherwise only that namespace (-watch-namespace)
+func newCtlNS(f int, watch string) *k8s.VerifC17 {
 	o := k8s.VerifC17Opts{
-		IsPlus: f&fPlus != 0, AppProtect: f&fAppProtect != 0, AppProtectDos: f&fDos != 0,
+		WatchNamespace: watch,
+		IsPlus:         f&fPlus != 0, AppProtect: f&fAppProtect != 0, AppProtectDos: f&fDos != 0,
 		InternalRoutes: f&fInternal != 0, Snippets: f&fSnippets != 0, CertManager: f&fCertMgr != 0,
 		TLSPassthrough: f&fTLSPass != 0, ExternalDNS: f&fCertMgr != 0, OIDC: f&fPlus != 0, RepoRoot: repoRoot,
 	}
@@ -643,6 +661,10 @@ func runShape(p pool, j job, thorough bool) Case {
 			cs = runAdvJob(j.id, j.shape, thorough)
 		case "sec":
 			cs = runSecretShape(j.id, j.shape)
+		case "sub":
+			cs = runSubSeq(j.id, j.shape)
+		case "tref":
+			cs = runTargetRef(j.id, j.shape)
 		default:
 			cs = runCRDShape(p, j.fam, j.id, j.shape, thorough)
 		}
@@ -695,6 +717,11 @@ func main() {
 			}
 		}
 	}
+	if want("tref") {
+		for _, d := range allTargetRefCases() {
+			jobs = append(jobs, job{"tref", len(jobs), d})
+		}
+	}
 	if *only == "advbases" { // diagnostic: which rich bases does the validator accept under which flags
 		for _, b := range advBaseNames {
 			for _, f := range advFlagSettings() {
@@ -716,6 +743,11 @@ func main() {
 			}
 		}
 		return
+	}
+	if want("sub") {
+		for _, d := range allSubSeqs() {
+			jobs = append(jobs, job{"sub", len(jobs), d})
+		}
 	}
 	if want("sec") {
 		for _, d := range allSecretShapes() {
@@ -2768,6 +2800,11 @@ func priorFor(c *k8s.VerifC17, viaSync bool, withGC bool, refPath string) {
 }
 
 func runObject(kind string, obj interface{}, f int, ctx int, panics *[]PanicInfo) (accepted bool, why string) {
+	return runObjectF(kind, obj, f, ctx, panics, true)
+}
+
+// runObjectF: follow = also run the event-driven follow-ups on an accepted object
+func runObjectF(kind string, obj interface{}, f int, ctx int, panics *[]PanicInfo, follow bool) (accepted bool, why string) {
 	setErr := func(err error) bool {
 		if err != nil {
 			why = err.Error()
@@ -2797,7 +2834,7 @@ func runObject(kind string, obj interface{}, f int, ctx int, panics *[]PanicInfo
 		if viaSync {
 			if m, s := guard(func() { _ = c.Sync(o, false) }); m != "" {
 				note("sync", m, s)
-			} else if e, m, s := followUpsIf(accepted, c); m != "" {
+			} else if e, m, s := followUpsIf(accepted && follow, c); m != "" {
 				note("followup:"+e, m, s)
 			} else if m, s := guard(func() { _ = c.Sync(o, true) }); m != "" {
 				note("sync-delete", m, s)
@@ -3278,12 +3315,13 @@ func runAdvJob(id int, d string, thorough bool) Case {
 					accepting = append(accepting, f)
 				}
 			}
-			for _, f := range pickSettings(accepting, thorough) {
+			picked := pickSettings(accepting, thorough)
+			for pi, f := range picked {
 				cs.AccRuns++
 				var ps []PanicInfo
-				runObject("Ingress", ing, f, 0, &ps)
+				runObjectF("Ingress", ing, f, 0, &ps, thorough || pi == len(picked)-1)
 				// the same annotation on a master with a minion, and on a minion under a master
-				if name != "nginx.org/mergeable-ingress-type" {
+				if name != "nginx.org/mergeable-ingress-type" && (thorough || pi == len(picked)-1) {
 					for _, onMaster := range []bool{true, false} {
 						ma := map[string]string{"nginx.org/mergeable-ingress-type": "master"}
 						mi := map[string]string{"nginx.org/mergeable-ingress-type": "minion"}
@@ -3324,6 +3362,10 @@ func runAdvJob(id int, d string, thorough bool) Case {
 			cs.Error = "bad adversarial job " + d
 			return cs
 		}
+		if !thorough { // the CRD validators read Plus, App Protect (WAF), DoS, cert-manager/externalDNS, snippets, TLS passthrough: six settings cover each on and off
+			rest := fInternal | fSnippets | fCertMgr | fTLSPass
+			flags = []int{0, fPlus, rest, fPlus | rest, fPlus | fAppProtect | fDos | rest, fAppProtect | fDos}
+		}
 		cur, path := stringLeaf(deepCopy(base), idx, nil)
 		cs.Kind = path
 		vals := nearMisses(cur, true)
@@ -3362,14 +3404,15 @@ func runAdvJob(id int, d string, thorough bool) Case {
 					accepting = append(accepting, f)
 				}
 			}
-			for _, f := range pickSettings(accepting, thorough) {
+			picked := pickSettings(accepting, thorough)
+			for pi, f := range picked {
 				cs.AccRuns++
 				var ps []PanicInfo
 				ctx := 0
 				if kind == "TransportServer" || kind == "VirtualServerRoute" {
 					ctx = 2 // a GlobalConfiguration and a VirtualServer that references default/z-vsr
 				}
-				runObject(kind, obj, f, ctx, &ps)
+				runObjectF(kind, obj, f, ctx, &ps, thorough || pi == len(picked)-1)
 				for _, p := range ps {
 					note(f, p.Stage, v, p.Msg, p.Site, obj)
 				}
@@ -3831,6 +3874,236 @@ func runSecretShape(id int, d string) Case {
 			cs.Panics = append(cs.Panics, PanicInfo{Combo: fmt.Sprintf("flags=%d", f), Stage: "sync", Msg: m, Site: s})
 			if cs.Object == nil {
 				cs.Object, _ = json.Marshal(map[string]interface{}{"secret": sec, "order": order})
+			}
+		}
+	}
+	return cs
+}
+
+// ---------------------------------------------------------------- S: cert-manager / external-dns sub-controllers, shape transitions
+
+// The cert-manager and external-dns sub-controllers get every VirtualServer straight from their
+// own informers (nothing validates it first) and their workers have no recover.  Family sub
+// drives the real SyncFnFor of both, over fake clientsets whose object trackers are the cluster
+// and real generated listers over indexers that are refreshed from the cluster after every
+// step (so the Certificates / DNSEndpoints a step created are in the lister at the next step),
+// with every sequence of three shapes of ONE VirtualServer instance (same name and UID): the
+// transitions tls+cert-manager -> tls only -> no tls, externalDNS enabled -> removed, and all the
+// others.  Shape digits: t = tls (0 nil, 1 {} , 2 {secret}, 3 {secret, cert-manager{cluster-issuer}},
+// 4 {secret, cert-manager{}} (no issuer), 5 {cert-manager{cluster-issuer}} (no secret), 6 {secret,
+// cert-manager with issuer and cluster-issuer, duration, renew-before, usages}, 7 {secret2,
+// cert-manager{issuer}}); e = externalDNS (0 off, 1 on without status endpoints, 2 on with an IP
+// endpoint, 3 on with a hostname endpoint, labels and providerSpecific, 4 on with an invalid IP).
+// A sequence is "t1e1-t2e2-t3e3"; with suffix "+f" a foreign (not owned) Certificate and
+// DNSEndpoint of the same names exist beforehand.
+const (
+	subTLS = 8
+	subDNS = 5
+)
+
+func subVS(t, e byte) *conf_v1.VirtualServer {
+	vs := &conf_v1.VirtualServer{ObjectMeta: meta("z-vs", 9), Spec: conf_v1.VirtualServerSpec{IngressClass: "nginx", Host: host1,
+		Upstreams: []conf_v1.Upstream{upstreamOf('0')}, Routes: []conf_v1.Route{routeOf(passRoute)}}}
+	switch t {
+	case '1':
+		vs.Spec.TLS = &conf_v1.TLS{}
+	case '2':
+		vs.Spec.TLS = &conf_v1.TLS{Secret: "s1"}
+	case '3':
+		vs.Spec.TLS = &conf_v1.TLS{Secret: "s1", CertManager: &conf_v1.CertManager{ClusterIssuer: "ci"}}
+	case '4':
+		vs.Spec.TLS = &conf_v1.TLS{Secret: "s1", CertManager: &conf_v1.CertManager{}}
+	case '5':
+		vs.Spec.TLS = &conf_v1.TLS{CertManager: &conf_v1.CertManager{ClusterIssuer: "ci"}}
+	case '6':
+		vs.Spec.TLS = &conf_v1.TLS{Secret: "s1", CertManager: &conf_v1.CertManager{ClusterIssuer: "ci", Issuer: "i", IssuerKind: "Issuer", IssuerGroup: "cert-manager.io",
+			CommonName: host1, Duration: "2160h", RenewBefore: "360h", Usages: "digital signature,key encipherment", IssueTempCert: true}}
+	case '7':
+		vs.Spec.TLS = &conf_v1.TLS{Secret: "s2", CertManager: &conf_v1.CertManager{Issuer: "i"}}
+	}
+	switch e {
+	case '1':
+		vs.Spec.ExternalDNS = conf_v1.ExternalDNS{Enable: true}
+	case '2':
+		vs.Spec.ExternalDNS = conf_v1.ExternalDNS{Enable: true, RecordType: "A", RecordTTL: 60}
+		vs.Status.ExternalEndpoints = []conf_v1.ExternalEndpoint{{IP: "10.2.3.4", Ports: "[80,443]"}}
+	case '3':
+		vs.Spec.ExternalDNS = conf_v1.ExternalDNS{Enable: true, Labels: map[string]string{"l": "v"}, ProviderSpecific: conf_v1.ProviderSpecific{{Name: "n", Value: "v"}}}
+		vs.Status.ExternalEndpoints = []conf_v1.ExternalEndpoint{{Hostname: "lb.example.com"}, {IP: "fd00::1"}}
+	case '4':
+		vs.Spec.ExternalDNS = conf_v1.ExternalDNS{Enable: true}
+		vs.Status.ExternalEndpoints = []conf_v1.ExternalEndpoint{{IP: "not-an-ip"}, {}}
+	}
+	return vs
+}
+
+func allSubSeqs() []string {
+	var shapes []string
+	for t := 0; t < subTLS; t++ {
+		for e := 0; e < subDNS; e++ {
+			shapes = append(shapes, fmt.Sprintf("%d%d", t, e))
+		}
+	}
+	var out []string
+	// every pair of shapes as steps 1 and 2, followed by each of: no tls / no externalDNS, and itself again
+	for _, a := range shapes {
+		for _, b := range shapes {
+			for _, c := range []string{"00", "20", "31", b} {
+				out = append(out, a+"-"+b+"-"+c)
+			}
+		}
+	}
+	for _, a := range shapes {
+		out = append(out, a+"-00-"+a+"+f")
+	}
+	return out
+}
+
+type subRecorder struct{}
+
+func (subRecorder) Event(k8sruntime.Object, string, string, string)                  {}
+func (subRecorder) Eventf(k8sruntime.Object, string, string, string, ...interface{}) {}
+func (subRecorder) AnnotatedEventf(k8sruntime.Object, map[string]string, string, string, string, ...interface{}) {
+}
+
+func runSubSeq(id int, d string) Case {
+	cs := Case{Fam: "sub", ID: id, Shape: d, Kind: "VirtualServer"}
+	foreign := strings.HasSuffix(d, "+f")
+	steps := strings.Split(strings.TrimSuffix(d, "+f"), "-")
+	ctx := nl.ContextWithLogger(context.Background(), slog.New(slog.NewTextHandler(io.Discard, &slog.HandlerOptions{Level: slog.Level(100)})))
+	var cmObjs, dnsObjs []k8sruntime.Object
+	if foreign {
+		cmObjs = append(cmObjs, &cmapi.Certificate{ObjectMeta: meta("s1", 1), Spec: cmapi.CertificateSpec{SecretName: "s1", DNSNames: []string{"other"}}})
+		dnsObjs = append(dnsObjs, &extdnsapi.DNSEndpoint{ObjectMeta: meta("z-vs", 1)})
+	}
+	cm := cmfake.NewSimpleClientset(cmObjs...)
+	dns := k8sfake.NewSimpleClientset(dnsObjs...)
+	idx := func() cache.Indexer {
+		return cache.NewIndexer(cache.MetaNamespaceKeyFunc, cache.Indexers{cache.NamespaceIndex: cache.MetaNamespaceIndexFunc})
+	}
+	cmIdx, dnsIdx := idx(), idx()
+	cmSync := certmanager.VerifC17SyncFn(subRecorder{}, cm, cmlisters.NewCertificateLister(cmIdx))
+	dnsSync := externaldns.VerifC17SyncFn(subRecorder{}, dns, extdnslisters.NewDNSEndpointLister(dnsIdx))
+	deliver := func() { // the watch: the listers see what the cluster holds
+		if l, err := cm.CertmanagerV1().Certificates("default").List(ctx, meta_v1.ListOptions{}); err == nil {
+			_ = cmIdx.Replace(nil, "")
+			for i := range l.Items {
+				_ = cmIdx.Add(l.Items[i].DeepCopy())
+			}
+		}
+		_ = dnsIdx.Replace(nil, "")
+		if e, err := dns.ExternaldnsV1().DNSEndpoints("default").Get(ctx, "z-vs", meta_v1.GetOptions{}); err == nil {
+			_ = dnsIdx.Add(e.DeepCopy())
+		}
+	}
+	deliver()
+	admittedAll := true
+	var objs []interface{}
+	for i, st := range steps {
+		if len(st) != 2 || st[0] < '0' || st[0] >= '0'+subTLS || st[1] < '0' || st[1] >= '0'+subDNS {
+			cs.Error = "bad sub-controller sequence " + d
+			return cs
+		}
+		vs := subVS(st[0], st[1])
+		vs.Generation = int64(i + 1)
+		objs = append(objs, vs)
+		if !admitted(vs) {
+			admittedAll = false
+		}
+		cs.Tried++
+		if m, s := guard(func() { _ = cmSync(ctx, vs.DeepCopy()) }); m != "" {
+			cs.Panics = append(cs.Panics, PanicInfo{Combo: fmt.Sprintf("step %d of %s", i+1, d), Stage: "certmanager.SyncFn", Msg: m, Site: s})
+		}
+		if m, s := guard(func() { _ = dnsSync(ctx, vs.DeepCopy()) }); m != "" {
+			cs.Panics = append(cs.Panics, PanicInfo{Combo: fmt.Sprintf("step %d of %s", i+1, d), Stage: "externaldns.SyncFn", Msg: m, Site: s})
+		}
+		deliver()
+	}
+	cs.Admitted = &admittedAll
+	if len(cs.Panics) > 0 {
+		cs.Object, _ = json.Marshal(map[string]interface{}{"versions_of_the_virtualserver": objs, "foreign_objects_beforehand": foreign})
+	}
+	return cs
+}
+
+// ---------------------------------------------------------------- S: EndpointSlice targetRef namespaces, with and without -watch-namespace
+
+// An endpoint's targetRef (and its namespace) is optional for the API server; the endpointslice
+// controller fills it in, other writers need not.  Family tref: an EndpointSlice of a referenced
+// Service whose ready endpoint has no targetRef, or a targetRef with namespace "default"
+// (watched), "" or "other" (never watched when -watch-namespace=default), with the controller
+// watching all namespaces or only "default", with an Ingress, a VirtualServer and a
+// TransportServer using the Service, on OSS and Plus (Plus with Prometheus-style pod lookups is
+// what resolves the owner of the endpoint's Pod), through the real sync path in both orders
+// (slice first, slice last).  Case: <watch: all|default>|<targetRef: none|default|empty|other>|<order 0|1>
+func allTargetRefCases() []string {
+	var out []string
+	for _, w := range []string{"all", "default"} {
+		for _, t := range []string{"none", "default", "empty", "other"} {
+			for _, o := range []string{"0", "1"} {
+				out = append(out, w+"|"+t+"|"+o)
+			}
+		}
+	}
+	return out
+}
+
+func runTargetRef(id int, d string) Case {
+	cs := Case{Fam: "tref", ID: id, Shape: d, Kind: "EndpointSlice"}
+	parts := strings.Split(d, "|")
+	if len(parts) != 3 {
+		cs.Error = "bad targetRef case " + d
+		return cs
+	}
+	watch := ""
+	if parts[0] == "default" {
+		watch = "default"
+	}
+	tru := true
+	p80 := int32(8080)
+	pname := "http"
+	ep := discovery_v1.Endpoint{Addresses: []string{"10.1.0.7"}, Conditions: discovery_v1.EndpointConditions{Ready: &tru}}
+	switch parts[1] {
+	case "default":
+		ep.TargetRef = &api_v1.ObjectReference{Kind: "Pod", Namespace: "default", Name: "pod-a"}
+	case "empty":
+		ep.TargetRef = &api_v1.ObjectReference{Kind: "Pod", Name: "pod-a"}
+	case "other":
+		ep.TargetRef = &api_v1.ObjectReference{Kind: "Pod", Namespace: "other", Name: "pod-x"}
+	}
+	sl := &discovery_v1.EndpointSlice{ObjectMeta: meta("svc-a-2", 150), AddressType: discovery_v1.AddressTypeIPv4,
+		Endpoints: []discovery_v1.Endpoint{ep}, Ports: []discovery_v1.EndpointPort{{Name: &pname, Port: &p80}}}
+	sl.Labels = map[string]string{"kubernetes.io/service-name": "svc-a"}
+	adm := admitted(sl)
+	cs.Admitted = &adm
+	users := func() []interface{} {
+		vs := olderVS(false, nil)
+		return []interface{}{gcObject(gcListeners()), advIngress("z-new", nil, 9), vs, olderTS()}
+	}
+	for _, f := range []int{0, fPlus, fPlus | fAppProtect | fDos | fInternal | fSnippets | fCertMgr | fTLSPass} {
+		cs.Tried++
+		m, s := guard(func() {
+			c := newCtlNS(f, watch)
+			fillSecrets(c)
+			if parts[2] == "0" {
+				_ = c.Sync(sl.DeepCopy(), false)
+			}
+			for _, o := range users() {
+				_ = c.Sync(o, false)
+			}
+			if parts[2] == "1" {
+				_ = c.Sync(sl.DeepCopy(), false)
+			}
+			c.ExtendAll()
+			for _, n := range k8s.VerifC17FollowUps {
+				_ = c.FollowUp(n)
+			}
+			_ = c.Sync(sl.DeepCopy(), true)
+		})
+		if m != "" {
+			cs.Panics = append(cs.Panics, PanicInfo{Combo: fmt.Sprintf("flags=%d watch-namespace=%q", f, watch), Stage: "sync", Msg: m, Site: s})
+			if cs.Object == nil {
+				cs.Object, _ = json.Marshal(map[string]interface{}{"endpointslice": sl, "watch_namespace": watch, "order": parts[2]})
 			}
 		}
 	}
